@@ -406,6 +406,15 @@ def run_case(case, o: Oracle) -> None:
             o.eq("parse_content", "flags", ph.flags, flags)
             o.eq("parse_content", "dek", parsed.dek, img.dek)
 
+    # the file embedded in a larger buffer (a flash dump, a container): BootImageV21.parse takes the offset of the file in the data
+    if fmt == "2.1" and parsed is not None:
+        off = (0x10, 0x40, 0x400, 0x1000, 16 * (len(data) % 997 + 1), len(data))[(len(data) // 16 + case["build"]) % 6]
+        with o.spsdk("parse_at_offset"):
+            p_off = BootImageV21.parse(bytes((i * 7 + 3) & 0xFF for i in range(off)) + data, offset=off, kek=kek)
+            _compare_sections("parse_at_offset", _sections_of(p_off), exp_sections, case, o)
+            o.eq("parse_at_offset", "header", (p_off.header.build_number, p_off.header.flags, p_off.dek), (case["build"], flags, img.dek))
+        o.label("parse_at_offset")
+
     # ---------------- (e) negatives
     wrong = bytes(case["wrong_kek"])
     if wrong != kek:
